@@ -146,6 +146,19 @@ func (cr *cliReplayer) runConcrete(j *Job, m *ConcreteModel, aid string) *Native
 			if code != 0 {
 				return fail("gtree version exited non-zero")
 			}
+			// 'template' piped into 'output' renders the documented sample tree (the block of /repo/README.md that
+			// follows "$ gtree template | gtree output")
+			if want, ok := readmeSampleTree(); ok {
+				c1, tmpl, _ := cr.exec(cr.bin, cr.dir, "", "template")
+				c2, tree, _ := cr.exec(cr.bin, cr.dir, tmpl, "output")
+				res.Asserts["template"]++
+				if c1 != 0 || c2 != 0 {
+					return fail(fmt.Sprintf("gtree template | gtree output: exit %d / %d", c1, c2))
+				}
+				if strings.TrimRight(tree, "\n") != want {
+					return fail(fmt.Sprintf("gtree template | gtree output renders %q, README documents %q", clip(tree), clip(want)))
+				}
+			}
 		}
 		return res
 	}
@@ -303,6 +316,31 @@ func (cr *cliReplayer) runConcrete(j *Job, m *ConcreteModel, aid string) *Native
 		}
 	}
 	return res
+}
+
+// readmeSampleTree: the console block of the README that documents 'gtree template | gtree output'
+func readmeSampleTree() (string, bool) {
+	b, err := os.ReadFile(filepath.Join(repoDir, "README.md"))
+	if err != nil {
+		return "", false
+	}
+	ls := strings.Split(string(b), "\n")
+	for i, l := range ls {
+		if strings.TrimSpace(l) == "$ gtree template | gtree output" {
+			var out []string
+			for _, m := range ls[i+1:] {
+				if strings.HasPrefix(m, "```") || strings.HasPrefix(m, "$ ") {
+					break
+				}
+				out = append(out, m)
+			}
+			if len(out) == 0 {
+				return "", false
+			}
+			return strings.TrimRight(strings.Join(out, "\n"), "\n"), true
+		}
+	}
+	return "", false
 }
 
 func clip(s string) string {
